@@ -41,6 +41,9 @@ def eo(obj):
     cn = c.name if isinstance(c, Color) else repr(c)
     if isinstance(obj, Box):
         return (t, si, cn, eo(obj.content))
+    extra = getattr(obj, 'verif_extra', None)
+    if extra is not None:  # harness-defined custom objects carrying data outside state_index
+        return (t, si, cn, extra())
     return (t, si, cn)
 
 
@@ -87,6 +90,8 @@ def obj_to_json(obj):
         return {'t': 'Door', 's': obj.state.name, 'c': obj.color.name}
     if isinstance(obj, (Exit, Key, Telepod, Beacon)):
         return {'t': t, 'c': obj.color.name}
+    if t == 'Curtain':
+        return {'t': t, 'opaque': bool(obj.opaque)}
     return {'t': t}
 
 
@@ -113,6 +118,8 @@ def obj_from_json(d):
     }
     if t in simple:
         return simple[t]()
+    if t == 'Curtain':
+        return grid_object_registry.from_name(t)(d.get('opaque', False))
     return grid_object_registry.from_name(t)()
 
 
@@ -124,6 +131,8 @@ def state_to_json(state):
             'x': int(state.agent.position.x),
             'o': state.agent.orientation.name,
             'held': obj_to_json(state.agent.grid_object),
+            # the library's own reset functions produce numpy-integer coordinates (rng.integers): keep that through copies
+            'np': type(state.agent.position.y).__module__ == 'numpy',
         },
     }
 
@@ -131,9 +140,11 @@ def state_to_json(state):
 def _grid_agent_from_json(d):
     grid = Grid([[obj_from_json(o) for o in row] for row in d['grid']])
     a = d['agent']
-    agent = Agent(
-        Position(a['y'], a['x']), Orientation[a['o']], obj_from_json(a['held'])
-    )
+    y, x = a['y'], a['x']
+    if a.get('np'):
+        import numpy as np
+        y, x = np.int64(y), np.int64(x)
+    agent = Agent(Position(y, x), Orientation[a['o']], obj_from_json(a['held']))
     return grid, agent
 
 
